@@ -79,6 +79,7 @@ from .functions import (
     trace,
     prod,
     dot,
+    matmul,
     nonzero,
     reshape
 )
